@@ -65,7 +65,9 @@ Section Inner.
     destruct e.
     - cbn. stsimpl. unfold inner0; stsimpl. repeat split; auto.
     - destruct (e_f E k') as [r|] eqn:Hf.
-      + cbn. stsimpl. unfold inner0, evald; stsimpl. repeat split; auto. exists r. repeat split; auto.
+      + destruct (log_bad E (ta s) (c_tlog cf) r (c_tval cf)).
+        * cbn. stsimpl. unfold inner0; stsimpl. repeat split; auto.
+        * cbn. stsimpl. unfold inner0, evald; stsimpl. repeat split; auto. exists r. repeat split; auto.
       + cbn. stsimpl. unfold inner0; stsimpl. repeat split; auto.
   Qed.
 
